@@ -336,10 +336,12 @@ func (p *ProjectRunner) getDoneProcess(name string) *Process {
 }
 
 func (p *ProjectRunner) getDoneOrRunningProcess(name string) *Process {
-	if doneProc := p.getDoneProcess(name); doneProc != nil {
-		return doneProc
+	// a process is added to the done registry before it is removed from the
+	// running one: looking at running first can never miss it in between
+	if runningProc := p.getRunningProcess(name); runningProc != nil {
+		return runningProc
 	}
-	return p.getRunningProcess(name)
+	return p.getDoneProcess(name)
 }
 
 func (p *ProjectRunner) removeRunningProcess(process *Process) {
